@@ -890,3 +890,61 @@ def foreign_fields_cover(F):
     if not r.violations and r.discharged == 0:
         r.discharged = r.obligations
     return r
+
+
+def parse_arm_faithful(F):
+    """R-PARSE-ARM: what the reader delivered is what the IR stores.
+    (a) No match arm over a `wasmparser` enum elides its payload by value: an arm whose guard reads a bound payload that
+        its body then never mentions stores nothing of that payload for the values the guard selects, so two different
+        inputs become one IR value (the crate has no such arm; a guard here is always a value test on parsed content).
+    (b) Where the reader's enum and the IR's enum carry the same name (`wasmparser::ElementItems` → `ElementItems`, …)
+        the IR variant is chosen by the reader's variant alone: one arm constructs one IR variant.  An arm that inspects
+        the payload and sometimes constructs a *different* variant re-spells the input (an expression segment becomes an
+        index segment and loses its element type)."""
+    r = RuleResult("R-PARSE-ARM",
+                   "in every match over a wasmparser enum: no arm's guard consumes a bound payload that the arm's body drops; and in a conversion between same-named reader/IR enums each arm constructs exactly one IR variant")
+    n_match = n_arm = n_homo = 0
+    for fn in F.fns:
+        if fn.get("body") is None or fn.get("kind") == "Closure" and False:
+            continue
+        for m in walk(fn["body"]):
+            if m.get("k") != "Match" or "wasmparser::" not in (m.get("scrut_ty") or ""):
+                continue
+            n_match += 1
+            rd = (m["scrut_ty"].split("<")[0]).replace("&", "").replace("mut ", "").strip()
+            rd_name = rd.split("::")[-1]
+            for arm in m["arms"]:
+                n_arm += 1
+                binds = {b["hid"]: b["name"] for b in walk(arm["pat"]) if b.get("k") == "Binding"}
+                if arm.get("guard") is not None and binds:
+                    g = {y["res"]["hid"] for y in walk(arm["guard"]) if y.get("k") == "Path" and y.get("res", {}).get("r") == "local"}
+                    bd = {y["res"]["hid"] for y in walk(arm["body"]) if y.get("k") == "Path" and y.get("res", {}).get("r") == "local"}
+                    dropped = sorted(binds[h] for h in binds if h in g and h not in bd)
+                    r.ob(not dropped, {"fn": fn["path"], "arm": sorted(v for _a, v in pat_variants(arm["pat"])[0]), "guard-only payload": dropped})
+                    if dropped:
+                        r.violate("%s | %s arm drops payload %s after testing it" % (fn["path"], "/".join(sorted(v for _a, v in pat_variants(arm["pat"])[0])), ",".join(dropped)), F.loc(fn, arm["pat"]),
+                                  "the `%s` arm tests the parsed payload `%s` in its guard and then stores nothing of it: every input the guard selects is stored as if the payload were absent, and is re-encoded in a different form (or, where the form matters for typing, as an invalid module)" % (
+                                      "/".join(sorted(v for _a, v in pat_variants(arm["pat"])[0])), ",".join(dropped)))
+                # (b)
+                made = set()
+                for y in walk(arm["body"]):
+                    for k_ in ("fres", "res"):
+                        d_ = y.get(k_)
+                        if isinstance(d_, dict) and d_.get("variant") and (d_.get("adt") or "").startswith("ir::") and d_["adt"].split("::")[-1] == rd_name:
+                            made.add(d_["variant"])
+                    if y.get("k") == "Struct" and y.get("variant") and (y.get("adt") or "").startswith("ir::") and y["adt"].split("::")[-1] == rd_name:
+                        made.add(y["variant"])
+                if made:
+                    n_homo += 1
+                    ok = len(made) == 1
+                    r.ob(ok, {"fn": fn["path"], "reader arm": sorted(v for _a, v in pat_variants(arm["pat"])[0]), "IR variants constructed": sorted(made)})
+                    if not ok:
+                        r.violate("%s | %s arm constructs %s" % (fn["path"], "/".join(sorted(v for _a, v in pat_variants(arm["pat"])[0])), "+".join(sorted(made))), F.loc(fn, arm["pat"]),
+                                  "the `%s` arm of the %s conversion constructs more than one IR variant (%s): which one is stored depends on the payload's contents, so some inputs are re-spelled as another kind and lose what only their own kind carries (the element type of an expression segment)" % (
+                                      "/".join(sorted(v for _a, v in pat_variants(arm["pat"])[0])), rd_name, ", ".join(sorted(made))))
+    r.count("reader_matches", n_match)
+    r.count("reader_arms", n_arm)
+    r.count("same_name_arms", n_homo)
+    if n_match < 100:
+        raise CheckError("matches over wasmparser enums not found (facts changed?): %d" % n_match)
+    return r
